@@ -279,6 +279,7 @@ class E4(object):
                                                                 hcls, hattr)
         self._entry_of[construct] = p.entry
         self._entry_of[construct + " [release on disconnect]"] = p.entry
+        self._entry_of[construct + " [registration is immediate]"] = p.entry
         # (c) transient retention: every retention site's handler clears the
         # field again on every normal path
         transient = True
@@ -304,19 +305,35 @@ class E4(object):
         guard_attrs = self._guard_attrs(e, vcls)
         if guard_attrs:
             missing = []
+            late = []
             for (re_, rp) in sites:
                 if self._is_transient_site(re_, rp, hattr):
                     continue
                 wrote = False
+                seen_ret = False
+                between = []
                 for x, _ in all_events(rp):
+                    if x is re_:
+                        seen_ret = True
+                        continue
+                    hit = False
                     if x["k"] in ("reg_set", "reg_del") and x["reg"][0] == "reg" and \
                             x["reg"][1] == re_["value"] and x["reg"][2] in guard_attrs:
-                        wrote = True
+                        hit = True
                     if x["k"] == "setattr" and x["obj"] == re_["value"] and \
                             x["attr"] in guard_attrs:
+                        hit = True
+                    if hit:
                         wrote = True
+                        break
+                    if seen_ret and (x["k"] in ("sql", "commit", "index", "script") or
+                                     (x["k"] == "ext" and not x["name"].endswith(
+                                         ("log.msg", "log.err")) and not x.get("internal"))):
+                        between.append(x)
                 if not wrote:
                     missing.append(re_)
+                elif between:
+                    late.append((re_, between[0]))
             ok = not missing
             self.add("rule_u", construct, _site(e), ok,
                      "(a) the eviction is guarded by %s of the evicted object and every "
@@ -327,6 +344,17 @@ class E4(object):
                      "get-or-create builds a second object for the same key" % (
                          sorted(guard_attrs), vcls, _site(missing[0]), missing[0]["func"]),
                      defect="D5" if not ok else None)
+            if ok and late:
+                r0, b0 = late[0]
+                self.add("rule_u", construct + " [registration is immediate]", _site(b0), False,
+                         "between keeping the %s (%s) and registering in %s the handler does "
+                         "%s at %s: if that fails the connection holds an unregistered object, "
+                         "and its disconnect un-registers a registration that never happened" % (
+                             vcls, _site(r0), sorted(guard_attrs),
+                             b0["k"] if b0["k"] != "ext" else b0["name"], _site(b0)))
+            elif ok:
+                self.add("rule_u", construct + " [registration is immediate]", "", True,
+                         "nothing that can fail lies between retention and registration")
             if ok:
                 if self._check_release(vcls, hcls, hattr, guard_attrs, construct):
                     for a in guard_attrs:
@@ -385,7 +413,16 @@ class E4(object):
         """attributes of objects of class vcls mentioned by the path conditions
         in effect at the eviction"""
         attrs = set()
+        # only the conditions decided inside the function that performs the
+        # eviction control it (earlier conditions of the path do not)
+        lo = hi = None
+        for f in self.repo.all_functions():
+            if f.qualname == e["func"]:
+                lo, hi = f.node.lineno, getattr(f.node, "end_lineno", f.node.lineno)
+                fpath = self.repo.modules[f.module].path
         for (t, b, site) in e["pc"]:
+            if lo is not None and not (site[0] == fpath and lo <= site[1] <= hi):
+                continue
             for x in _walk(t):
                 if x[0] == "reg" and x[1][0] == "obj" and x[1][1] == vcls:
                     attrs.add(x[2])
